@@ -43,6 +43,8 @@ SCHEMA.update({
     'DateTime.hour': 'int',
     'DateTime.minute': 'int',
     'TM.microsec_precision': 'int',
+    # a version's library module (external: reached through importlib)
+    'Library.base_datatypes': 'dict[any]',
     # MLLP
     'MLLPRequestHandler.sb': 'bytes',
     'MLLPRequestHandler.eb': 'bytes',
